@@ -42,4 +42,7 @@ theorem flow_ticket_discipline : Ebu.Flow.ticketDiscipline = true := by decide +
 /-- OBLIGATION: the Sequential mutex is taken in `callHandlerWithContext` and unlocked by a `defer` registered right after the lock -/
 theorem flow_handler_mutex : Ebu.Flow.handlerBracket = true := by decide +kernel
 
+/-- OBLIGATION: `awaitTurn` re-checks `seqServing` in a loop around `seqCond.Wait` and `releaseTurn` advances `seqServing` and BROADCASTS under `seqMu`: M2's turn step is enabled exactly when `serving = ticket`, which needs every waiting goroutine to be woken, not just one -/
+theorem flow_turn_wakes_every_waiter : Ebu.Flow.condVarShape = true := by decide +kernel
+
 end Ebu.Props.C07
